@@ -108,7 +108,9 @@ def make_spec(seed, rng, k=None, mode=None, N=None, v=None):
                     'a': 'write', 'stream': rng.choice(['stdout', 'print']),
                     'text': rng.choice(['..F. nested run %d\n' % k, './data/file%d\n' % k,
                                         '... done %d\n' % k, 'plain line %d\n' % k,
-                                        '.hidden%d\n' % k])}))
+                                        '.hidden%d\n' % k,
+                                        # a block of more than a thousand lines
+                                        ''.join('row %d.%d\n' % (k, i) for i in range(1300))])}))
     r_ = rng.random()
     if r_ < 0.2:
         knobs['stdout_yields'] = True      # a slow parent stdout: flushes are scheduling points
@@ -207,8 +209,8 @@ def run(spec, ctx):
         if r0['ran'] != r1['ran']:
             viols.append(C.viol('C06/ran-differs', '%r vs %r' % (r0['ran'], r1['ran'])))
         # blocks
-        ptext = ''.join(t for tag_, t in par.out if tag_ == 'O')
-        ptext = KEEPALIVE_RE.sub('', ptext)
+        rawtext = ''.join(t for tag_, t in par.out if tag_ == 'O')
+        ptext = KEEPALIVE_RE.sub('', rawtext)
         base_order = [x for x in C.RUNNING_RE.findall(base.text)]
         if par.children:
             if N == 1:
@@ -237,6 +239,18 @@ def run(spec, ctx):
                         ok = False
                         break
                     pos = i + len(kids[l])
+                if ok:
+                    # ... and contiguous in what was really printed: keep-alive text of other
+                    # layers may stand between two blocks, never inside one
+                    pos = 0
+                    for l in order:
+                        i = rawtext.find(kids[l], pos)
+                        if i < 0:
+                            viols.append(C.viol('C06/block-interrupted/' + tag,
+                                                'the block of %s is interrupted by keep-alive '
+                                                'output of other layers' % l))
+                            break
+                        pos = i + len(kids[l])
                 if not ok:
                     got_order = [x for x in C.RUNNING_RE.findall(ptext) if x in kids]
                     if got_order != order:
